@@ -121,6 +121,15 @@ theorem C08_update_later_wins (envs : List (List Char × Conf)) (cfg : Conf) (i 
     · injection h with h; subst h; exact get_append _ _ _
     · cases h
 
+/-- `cherrypy.config[k] = v`: that key reads `v` afterwards, every other key as before. -/
+theorem C08_setitem (cfg : Conf) (k k' : Name) (v : Val) :
+    cget (setItem cfg k v).config k' = if k = k' then some v else cget cfg k' := by
+  unfold setItem
+  rw [get_append]
+  by_cases h : k = k'
+  · simp [cget, h]
+  · simp [cget, h]
+
 /-! ### the live table -/
 
 def falseVal : Option Val := some (.bool false)
